@@ -1,14 +1,15 @@
 import Verif.Model.Options
 import Verif.Gen.CliFlags
 import Verif.Gen.JsVersionGates
+import Verif.Gen.OptionSites
 import Verif.Props.C07
 import Verif.Props.C06
 import Verif.Props.C08
 import Verif.Props.C04
-import Verif.Props.C02
-import Verif.Props.C01
-import Verif.Props.C03
 import Verif.Props.C05
+import Verif.Proofs.RenameTree
+import Verif.Proofs.JsMinSound
+import Verif.Proofs.HtmlWs
 import Verif.Proofs.NumJson
 import Verif.Proofs.C16HtmlOpt
 /-!
@@ -20,6 +21,7 @@ import Verif.Proofs.C16HtmlOpt
   quantified over the option records there): JSON `KeepNumbers`, XML `KeepWhitespace`, … (the list grows as the
   HTML/CSS/SVG/JS models are merged; see docs/C16.md).
 -/
+set_option maxRecDepth 1000000
 namespace Verif.Props.C16
 open Verif.Model.Options
 
@@ -84,6 +86,65 @@ def cliBound : List String :=
 theorem options_covered :
     Verif.Gen.CliFlags.optionFields.all (fun f => libraryOnly.contains f || cliBound.contains f) = true := by decide
 
+/-! ## where the options are consulted (regenerated) -/
+
+/-- every read or write of an option field in the six minifier packages, with its context (regenerated from the
+    source on every run): the `Precision` fields reach nothing but `minify.Number`/`minify.Decimal` (and the JS
+    literal printers), `newPrecision` is the clamped copy used for numbers the SVG path shortener computes itself,
+    every `Keep*` field is read at the sites modelled by the theorems below, the only writes go to the private copy
+    `Minify` makes (`KeepConditionalComments` is folded into `KeepSpecialComments`; `Inline` from the `inline`
+    parameter).  A new consumer of an option, or a check that disappears, changes this list. -/
+theorem option_sites_ok :
+    Verif.Gen.OptionSites.sites =
+      ["css.Minifier.Minify: Inline WRITE", "css.Minifier.Minify: Inline arg of css.NewParser",
+       "css.Minifier.Minify: Inline if !o.Inline", "css.Minifier.Minify: Precision assigned to o.newPrecision",
+       "css.Minifier.Minify: newPrecision WRITE", "css.Minifier.Minify: newPrecision WRITE",
+       "css.Minifier.Minify: newPrecision if o.newPrecision <= 0 || 15 < o.newPrecision",
+       "css.Minifier.Minify: newPrecision if o.newPrecision <= 0 || 15 < o.newPrecision",
+       "css.cssMinifier.minifyNumber: KeepCSS2 if c.o.KeepCSS2 && bytes.IndexByte(num, 'e') == -1 && bytes.Ind..",
+       "css.cssMinifier.minifyNumber: Precision arg of minify.Decimal",
+       "css.cssMinifier.minifyNumber: Precision arg of minify.Number",
+       "css.cssMinifier.minifyProperty: KeepCSS2 if !c.o.KeepCSS2",
+       "html.Minifier.Minify: KeepComments if o.KeepComments", "html.Minifier.Minify: KeepConditionalComments WRITE",
+       "html.Minifier.Minify: KeepConditionalComments if o.KeepConditionalComments",
+       "html.Minifier.Minify: KeepDefaultAttrVals if !o.KeepDefaultAttrVals && (attr.Hash == Type && (t.Hash == S..",
+       "html.Minifier.Minify: KeepDocumentTags if !hasAttributes && !keepBody && (!o.KeepDocumentTags && (t.Ha..",
+       "html.Minifier.Minify: KeepEndTags if !o.KeepEndTags",
+       "html.Minifier.Minify: KeepQuotes arg of html.EscapeAttrVal",
+       "html.Minifier.Minify: KeepSpecialComments WRITE",
+       "html.Minifier.Minify: KeepSpecialComments if o.KeepSpecialComments",
+       "html.Minifier.Minify: KeepWhitespace if o.KeepWhitespace",
+       "html.Minifier.Minify: KeepWhitespace if o.KeepWhitespace || t.Traits & objectTag != 0",
+       "html.Minifier.Minify: KeepWhitespace if o.KeepWhitespace || t.Traits & objectTag != 0",
+       "html.Minifier.Minify: TemplateDelims arg of html.NewTemplateLexer",
+       "js.Minifier.Minify: KeepVarNames arg of newRenamer", "js.Minifier.Minify: KeepVarNames if o.KeepVarNames",
+       "js.Minifier.Minify: useAlphabetVarNames arg of newRenamer", "js.Minifier.minVersion: Version returned",
+       "js.Minifier.minVersion: Version returned",
+       "js.jsMinifier.countHoistLength: KeepVarNames if !m.o.KeepVarNames",
+       "js.jsMinifier.minifyArrowFunc: KeepVarNames assigned to m.renamer.rename",
+       "js.jsMinifier.minifyExpr: Precision arg of binaryNumber",
+       "js.jsMinifier.minifyExpr: Precision arg of decimalNumber",
+       "js.jsMinifier.minifyExpr: Precision arg of hexadecimalNumber",
+       "js.jsMinifier.minifyExpr: Precision arg of octalNumber",
+       "js.jsMinifier.minifyFuncDecl: KeepVarNames assigned to m.renamer.rename",
+       "js.jsMinifier.minifyMethodDecl: KeepVarNames assigned to m.renamer.rename",
+       "json.Minifier.Minify: KeepNumbers if !o.KeepNumbers && 0 < len(text) && ('0' <= text[0] && text[0..",
+       "json.Minifier.Minify: Precision arg of minify.Number", "svg.Minifier.Minify: Inline WRITE",
+       "svg.Minifier.Minify: Inline if !o.Inline",
+       "svg.Minifier.Minify: Inline if tag == Svg && (o.Inline && attr == Xmlns || attr == Version ..",
+       "svg.Minifier.Minify: KeepComments if o.KeepComments",
+       "svg.Minifier.Minify: Precision assigned to o.newPrecision", "svg.Minifier.Minify: newPrecision WRITE",
+       "svg.Minifier.Minify: newPrecision WRITE",
+       "svg.Minifier.Minify: newPrecision if o.newPrecision <= 0 || 15 < o.newPrecision",
+       "svg.Minifier.Minify: newPrecision if o.newPrecision <= 0 || 15 < o.newPrecision",
+       "svg.Minifier.shortenDimension: Precision arg of minify.Number",
+       "svg.PathData.shortenAltPosInstruction: newPrecision arg of minify.Number",
+       "svg.PathData.shortenCurPosInstruction: Precision arg of minify.Number",
+       "xml.Minifier.Minify: KeepWhitespace if !o.KeepWhitespace",
+       "xml.Minifier.Minify: KeepWhitespace if next.TokenType == xml.TextToken && !o.KeepWhitespace && pars..",
+       "xml.Minifier.Minify: KeepWhitespace if o.KeepWhitespace",
+       "xml.Minifier.Minify: KeepWhitespace if o.KeepWhitespace"] := by decide
+
 /-! ## per-option theorems: JSON, XML (re-exported from the language models) -/
 
 /-- JSON `KeepNumbers`: every lexeme, numbers included, is byte-identical — for every value, decoration and whatever `Number` does -/
@@ -110,7 +171,7 @@ theorem xml_keep_whitespace : type_of% @Verif.Props.C06.keep_ws_never_removed :=
 /-! ## `Precision` (css, js, json, svg): the contract of `minify.Number` / `minify.Decimal` (C08)
 
 Every minifier hands number lexemes to `minify.Number(lexeme, Precision)` (CSS with `KeepCSS2`: `minify.Decimal`);
-the regenerated fact `precision_sites_ok` below lists these call sites.  The C08 model is the model of that
+the regenerated fact `option_sites_ok` above lists these call sites.  The C08 model is the model of that
 function for every precision. -/
 
 /-- `Precision ≤ 0` means no rounding: the number written denotes exactly the same rational -/
@@ -163,12 +224,29 @@ end Css
 
 /-! ## JavaScript -/
 
-/-- JS `KeepVarNames`: no scope is renamed, every binding keeps its name — for every scope tree, naming and
-    name-generator configuration (C02 `keep_identity`) -/
-theorem js_keep_var_names : type_of% @Verif.Props.C02.keep_identity := @Verif.Props.C02.keep_identity
+section Js
+open Verif.Spec.Scope Verif.Model.Rename Verif.Proofs.Rename
 
-/-- JS `KeepVarNames` at the level of one `renameScope` call: the old names in the old order -/
-theorem js_keep_var_names_scope : type_of% @Verif.Props.C02.renameScope_off := @Verif.Props.C02.renameScope_off
+/-- JS `KeepVarNames`: with the flags `Minify` computes for `KeepVarNames` (`Tree.withFlags true`) no scope is
+    renamed and every binding keeps its name — for every scope tree (every placement of `with`, every nesting), every
+    naming and every name-generator configuration (same statement as C02 `keep_identity`, proved here from the C02
+    lemmas so that C16 does not depend on the C02 property file) -/
+theorem js_keep_var_names (c : Cfg) (ν : Naming) (t : Tree) :
+    renameTree c ν (Tree.withFlags true t) = ν := by
+  apply noneRenamed_id
+  simp only [Tree.withFlags, Tree.toForest, all_node, Bool.not_true, Bool.not_false]
+  exact ⟨trivial, computeFlags_keep _, rfl⟩
+
+/-- JS `KeepVarNames` at the level of one `renameScope` call with the rename flag off: the old names in the old order -/
+theorem js_keep_var_names_scope (c : Cfg) (sc : ScopeIn) :
+    (renameScope c false sc).map (·.2) = sc.declared.map (·.1) ∧
+    (renameScope c false sc).map (·.1) = List.range sc.declared.length := by
+  simp only [renameScope, Bool.false_eq_true, if_false]
+  constructor
+  · rw [← List.unzip_snd, List.unzip_zip (by simp)]
+  · rw [← List.unzip_fst, List.unzip_zip (by simp)]
+
+end Js
 
 /-! ## HTML (`Verif.Model.Html`, the model of the token loop of `html/html.go`)
 
@@ -456,5 +534,70 @@ theorem html_template_verbatim (o : Opts) (ext : Ext) (sub : Sub) :
   exact (ok_snd hs).symm
 
 end Html
+
+/-! ## the guarantees of the other properties under every option combination
+
+The main theorems of C01–C08 whose statements are universally quantified over the option record of their minifier
+(or over the parameter through which the option enters the model), restated here with the quantifier in front.  For
+C01–C03 they are derived from the lemmas in `Proofs/` (not from `Props/C0x`, which are being adapted to the
+current `/repo`); docs/C16.md lists, per property, which theorem is option-universal and which fixes options. -/
+
+/-- C03 whitespace refinement: every `Opts` (all `Keep*` masks), every sub-minifier and `ext` table -/
+theorem html_ws_refine_all_options (o : Verif.Model.Html.Opts) (ext : Verif.Model.Html.Ext) (sub : Verif.Model.Html.Sub)
+    (toks : List Verif.Model.Html.HTok) (g : Verif.Proofs.HtmlWs.guard o ext sub {} [] toks = true) :
+    Verif.Spec.HtmlWs.WsRefine (Verif.Proofs.HtmlWs.inOut o ext sub {} toks).1 (Verif.Proofs.HtmlWs.inOut o ext sub {} toks).2 :=
+  Verif.Proofs.HtmlWs.ws_refine_core o ext sub toks {} [] (fun _ _ => rfl) g
+section JsAll
+open Verif.Spec.Scope Verif.Model.Rename Verif.Proofs.Rename
+/-- C02 capture freedom for the scope trees js.go produces, `keep` = `KeepVarNames`, both values (the statement of
+    C02 `capture_free_js`; derived here from the C02 traversal lemmas `main`, `resolve_ok`, `computeFlags_flagsOk`) -/
+theorem js_capture_free_all_options (c : Cfg) (ok : CfgOk c) (ν : Naming) (keep : Bool) (t : Tree)
+    (hwf : wfTree (Tree.withFlags keep t) = true)
+    (hin : inputOk ν (Tree.withFlags keep t).toForest = true) :
+    ∀ o ∈ (Tree.withFlags keep t).toForest.occs,
+      resolve (renameTree c ν (Tree.withFlags keep t)) o.1 (renameTree c ν (Tree.withFlags keep t) o.2) =
+        resolveId o.1 o.2 := by
+  have hflags : flagsOk (Tree.withFlags keep t).toForest = true := by
+    simp only [Tree.withFlags, Tree.toForest, flagsOk, Bool.false_eq_true, if_false, Bool.and_true]
+    apply computeFlags_flagsOk
+    intro h
+    simp only [Bool.and_eq_true, Bool.not_eq_true', Bool.or_eq_false_iff] at h
+    exact ⟨h.1, h.2.2⟩
+  generalize Tree.withFlags keep t = t' at hwf hin hflags ⊢
+  simp only [wfTree, wfForest, Bool.and_eq_true, decide_eq_true_eq] at hwf
+  have hcl : Closed t'.toForest := by
+    intro x hx
+    simp only [Tree.toForest] at hx ⊢
+    rw [mem_free_node] at hx
+    have hx' : x ∈ Forest.freeScope t'.root t'.children := by
+      rcases hx with hx | hx
+      · exact hx
+      · simp [Forest.free] at hx
+    have hs := scopeOk_iff.1 ((all_node _ _ _ _).1 hwf.2).1
+    rw [decls_node]
+    simp only [Forest.decls, List.append_nil, List.mem_append, not_or]
+    exact ⟨(mem_freeScope.1 hx').2, hs.2 x hx'⟩
+  have hall := main c ok ν t'.toForest ν true hwf.1 hwf.2 hcl (by simp) (fun _ => hflags)
+    (fun _ _ _ => rfl) (fun _ => hin)
+  intro o ho
+  exact (resolve_ok (renameForest c ν t'.toForest) t'.toForest hall o ho).1
+end JsAll
+/-- C01 rewrite soundness: `v20` = `minVersion(2020)`, both values -/
+theorem js_rewrite_sound_all_versions : type_of% @Verif.Proofs.JsMinSound.minEG_sound := @Verif.Proofs.JsMinSound.minEG_sound
+/-- C06 infoset and well-formedness: every `XmlOpts` (`KeepWhitespace`) -/
+theorem xml_infoset_all_options : type_of% @Verif.Props.C06.xml_infoset := @Verif.Props.C06.xml_infoset
+theorem xml_wellformed_all_options : type_of% @Verif.Props.C06.xml_wellformed := @Verif.Props.C06.xml_wellformed
+/-- C07 main theorem: every `JsonOpts` (`KeepNumbers`, `Precision` through the hypotheses on `num`) -/
+theorem json_main_all_options : type_of% @Verif.Props.C07.C07_main := @Verif.Props.C07.C07_main
+/-- C04 pass-through of unknown properties: every `Opts` (`KeepCSS2`) -/
+theorem css_passthrough_all_options : type_of% @Verif.Props.C04.passthrough_property := @Verif.Props.C04.passthrough_property
+/-- C05 path geometry: every pair of number printers (`Precision`, `newPrecision`) that satisfies the exactness contract -/
+theorem svg_path_geometry_all_printers : type_of% @Verif.Props.C05.path_geometry_partial := @Verif.Props.C05.path_geometry_partial
+/-- C05 path output parses: every pair of number printers whose results are number lexemes (C08: every precision) -/
+theorem svg_path_parses_all_printers : type_of% @Verif.Props.C05.shorten_output_parses_of_contract :=
+  @Verif.Props.C05.shorten_output_parses_of_contract
+/-- C08 grammar and length: every precision -/
+theorem number_grammar_all_precisions : type_of% @Verif.Props.C08.number_grammar := @Verif.Props.C08.number_grammar
+theorem number_length_all_precisions : type_of% @Verif.Props.C08.number_length := @Verif.Props.C08.number_length
 
 end Verif.Props.C16
